@@ -88,18 +88,34 @@ def LineTerm.bytes : LineTerm → Bytes
   | .byte b => [b]
   | .crlf => [13, 10]
 
+/-- `write_line`: the bytes, completed with the configured terminator when they do not end in its byte. -/
+def completeLine (t : LineTerm) (bs : Bytes) : Bytes :=
+  bs ++ (if t.isSuffix bs then [] else t.bytes)
+
+/-- One printed record of `sink_slow`: the column handed to `write_prelude` (1-based start of a match in
+the printed bytes; `none` when the line is printed by `sink_fast`) and the record's text. -/
+structure Record where
+  col : Option Nat
+  text : Bytes
+  deriving Repr, DecidableEq
+
 /-- What the Standard printer writes for one matched line when a replacement is configured
-(`StandardSink::matched` → `replace` → `Sunk::from_sink_match` → `sink_fast`/`sink_slow` →
-`write_line`; no line numbers, no colour). If the replacement produced no expansion
-(`Replacer::replacement()` is `None`) the original line is printed. -/
-def printMatched (t : LineTerm) (only : Bool) (line : Bytes) (st : RState) : Bytes :=
+(`StandardSink::matched` → `replace` → `Sunk::from_sink_match` → `StandardImpl::sink` → `sink_fast` /
+`sink_slow` → `write_line`; no colour, no trimming, no column limit). If the replacement produced no
+expansion (`Replacer::replacement()` is `None`) the original line goes through `sink_fast`.
+`sink_slow` tests `only_matching` before `per_match`. -/
+def printRecords (t : LineTerm) (only perMatch : Bool) (line : Bytes) (st : RState) : List Record :=
   if st.spans.isEmpty then
-    line ++ (if t.isSuffix line then [] else t.bytes)
+    [⟨none, completeLine t line⟩]
   else if only then
-    st.spans.flatMap fun sp =>
-      let piece := slice st.dst sp.s sp.e
-      piece ++ (if t.isSuffix piece then [] else t.bytes)
+    st.spans.map fun sp => ⟨some (sp.s + 1), completeLine t (slice st.dst sp.s sp.e)⟩
+  else if perMatch then
+    st.spans.map fun sp => ⟨some (sp.s + 1), completeLine t st.dst⟩
   else
-    st.dst ++ (if t.isSuffix st.dst then [] else t.bytes)
+    [⟨(st.spans.head?).map (·.s + 1), completeLine t st.dst⟩]
+
+/-- The record texts only (what is written after each prelude). -/
+def printMatched (t : LineTerm) (only : Bool) (line : Bytes) (st : RState) : Bytes :=
+  (printRecords t only false line st).flatMap (·.text)
 
 end RgVerif.Replace
